@@ -170,6 +170,8 @@ pub const CORPUS: &[&str] = &[
     "SELECT count(*) AS c, count(score) AS cs, sum(score) AS s, avg(score) AS a, min(score) AS mn, max(score) AS mx, stddev(score) AS sd, variance(score) AS v FROM users",
     "SELECT city, count(DISTINCT age) AS da, avg(DISTINCT age) AS aa, min(city) AS mc, max(zip) AS mz FROM users GROUP BY city ORDER BY city",
     "SELECT id, age FROM users WHERE city IN ('NY', 'LA') AND age NOT IN (20) AND NOT (score IS NULL) ORDER BY id",
+    "SELECT a.id, b.amount FROM users AS a JOIN orders AS b ON a.id = b.user_id ORDER BY a.id, b.amount",
+    "SELECT a.id AS uid, b.amount AS amt FROM users AS a JOIN orders AS b ON a.id = b.user_id ORDER BY uid, amt",
     // one CTE read twice (a shared node of the relation graph)
     "WITH t AS (SELECT id, age FROM users WHERE age > 20) SELECT a.id, b.age FROM t AS a JOIN t AS b ON a.id = b.id ORDER BY a.id",
     "WITH t AS (SELECT city, count(*) AS c FROM users GROUP BY city) SELECT city, c FROM t UNION ALL SELECT city, c FROM t",
